@@ -45,6 +45,7 @@ fn check_one(spec: &TlSpec, rt: &RefTl, tl: &PTimeline, start: Option<&P>, t: f3
                 let mut c = case_json(spec, start, t, init);
                 c["got"] = got.to_json();
                 c["reference"] = json!(format!("{want:?}"));
+                c["unit_test"] = json!(timeline_unit_test(spec, start, t, init, &asserts_for(&want, rt, start)));
                 c
             })
         });
